@@ -271,6 +271,65 @@ def judge_so21(inp, obs, lr):
 
 
 # ------------------------------------------------------------------------------------------------
+# 2b. o_to_pgl(S, bilinear_form=B) correspondence: the general-form A_d (model oToPglAdForm / oToPglForm) with the pair
+#     (W, Winv) that the public utils.diagonalize_form returns for B (a contract output; W·Winv = 1 checked exactly)
+# ------------------------------------------------------------------------------------------------
+def _fmul(X, Y):
+    return [[sum((X[i][k] * Y[k][j] for k in range(len(Y))), F(0)) for j in range(len(Y[0]))] for i in range(len(X))]
+
+
+def _pf_exact(inp):
+    """the diagonal form B (negative direction at index p, square-norms q_i^2) and S = Pm^-1 so21(A) Pm with Pm^T J Pm = B"""
+    p, q = inp["p"], [F(x) for x in inp["q"]]
+    A = [[F(x) for x in r] for r in inp["A"]]
+    cols = [p] + [i for i in range(3) if i != p]
+    Pm = [[(q[j] if cols[i] == j else F(0)) for j in range(3)] for i in range(3)]
+    Pi = [[(1 / q[i] if cols[j] == i else F(0)) for j in range(3)] for i in range(3)]
+    B = [[((-1 if i == p else 1) * q[i] * q[i] if i == j else F(0)) for j in range(3)] for i in range(3)]
+    return B, _fmul(_fmul(Pi, so21_exact(A)), Pm)
+
+
+def gen_pglform_corr(rng, n):
+    for _ in range(n):
+        kind = rng.choice(["sl2", "sl2", "zero", "word", "locus"])
+        yield {"p": rng.randrange(3), "q": [Q.qs(rng.choice([F(1), F(2), F(1, 2), F(4), F(1, 4)])) for _ in range(3)],
+               "A": C.enc([rmat2(rng, "Q", kind)], "Q")[0], "kind": kind}
+
+
+def run_pglform_corr(inp):
+    from geometry_tools import utils
+    B, S = _pf_exact(inp)
+    Bf = np.array([[float(x) for x in r] for r in B])
+    Sf = np.array([[float(x) for x in r] for r in S])
+    W, Winv = utils.diagonalize_form(Bf.copy(), order_eigenvalues="minkowski", reverse=True, with_inverse=True)
+    return {"W": np.asarray(W, dtype=float).tolist(), "Winv": np.asarray(Winv, dtype=float).tolist(),
+            "pgl": np.asarray(lie.o_to_pgl(Sf.copy(), bilinear_form=Bf.copy()), dtype=float).tolist()}
+
+
+def lean_pglform_corr(inp, obs):
+    if "exc" in obs:
+        return []
+    _, S = _pf_exact(inp)
+    return [{"op": "c17.o_to_pgl_form", "S": Q.enc(S), "W": Q.enc(obs["W"]), "Winv": Q.enc(obs["Winv"])}]
+
+
+def judge_pglform_corr(inp, obs, lr):
+    tags0 = {"p": inp["p"], "kind": inp["kind"], "unit_form": all(F(x) == 1 for x in inp["q"])}
+    if "exc" in obs:
+        return {"expected": "o_to_pgl(S, bilinear_form=B)", "observed": obs, "tags": dict(tags0, exc=obs["exc"])}
+    r = lr[0]
+    if "err" in r:
+        if r["err"] == "irrational-root":
+            return None        # the pair (W, Winv) returned for B is not exactly rational: nothing to compare by value
+        return {"expected": "model answer", "observed": r, "tags": dict(tags0, driver_err=r["err"])}
+    if not r["ok"]["inverse"]:
+        return None            # W·Winv = 1 only up to rounding: the exact model is not evaluated on this pair
+    if not pm_same(np.array(obs["pgl"]), Q.decf(r["ok"]["A"])):
+        return {"expected": {"model o_to_pgl(S, form)": r["ok"]["A"]}, "observed": obs["pgl"], "tags": dict(tags0, site="o_to_pgl_form")}
+    return None
+
+
+# ------------------------------------------------------------------------------------------------
 # 3. adjoint representations and Killing form correspondence
 # ------------------------------------------------------------------------------------------------
 def gen_adj(rng, n):
@@ -1658,6 +1717,10 @@ CLAUSES = [
            budget={"quick": 70, "thorough": 2000},
            what="sl2_to_so21 (arrays), sl2_iso (arrays, list input), o_to_pgl / hom.so21_to_sl2 / Isometry.to_sl2 on exact-ℚ matrices "
                 "incl. vanishing entries and det -1 — vs the model (repaired extraction; the pinned extraction is reported alongside)"),
+    Clause("pgl_form_corr", "corr", gen_pglform_corr, run_pglform_corr, judge_pglform_corr, lean=lean_pglform_corr,
+           site="lie.o_to_pgl(bilinear_form=)", budget={"quick": 60, "thorough": 1000},
+           what="o_to_pgl(S, bilinear_form=B) for diagonal forms B of signature (2,1) (negative direction at any index, square-norms in {1/16..16}) and exact "
+                "S = Pm^-1 sl2_to_so21(A) Pm vs Lean oToPglForm evaluated with the (W, Winv) that utils.diagonalize_form returns for B (W·Winv = 1 checked exactly); up to sign"),
     Clause("adjoint_corr", "corr", gen_adj, run_adj, judge_adj, lean=lean_adj, site="lie.gln_adjoint/sln_adjoint/sln_killing_form",
            budget={"quick": 30, "thorough": 1000},
            what="gln_adjoint, sln_adjoint (direct and via lie.hom, with and without inv=), sln_killing_form, n = 2..6, ℚ and ℚ(i)"),
